@@ -496,6 +496,7 @@ def finalize(reports, ctx):
                          'case': {'case_index': int(idx),
                                   'regenerate': 'gen.rng(seed, "C06", idx)'},
                          'observed': {str(k): v for k, v in d.items()},
+                         'replay_hashseeds': sorted(d.keys()),
                          'expected': 'one answer under every hash seed',
                          'note': 'answer depends on PYTHONHASHSEED'})
     multi = sum(1 for idx, s in orders.items() if len(s) >= 2)
@@ -529,14 +530,11 @@ def replay(ctx, rep):
             meta(gen.rng(ctx.seed, PROP, ('replay', attempt)), idx, 'CTL',
                  nk, t, base)
         return
-    r = gen.rng(ctx.seed, PROP, idx)
+    r = gen.rng(int(rep.get('seed', ctx.seed)), PROP, idx)
     logic, nk, t = make_case(r, idx)
     base, od = run_base(logic, nk, t)
+    # the driver runs this replay once per recorded hash seed and compares
+    # the answers of the fresh processes with each other
+    ctx.extra['replay_result'] = base
     meta(gen.rng(ctx.seed, PROP, (idx, ctx.hashseed)), idx, logic, nk, t,
          base)
-    if 'observed' in rep and isinstance(rep['observed'], dict):
-        exp = list(rep['observed'].values())
-        if any(v != base for v in exp):
-            LOG.violation('c06.hashseed', PROP, c, base, exp,
-                          note='answer under this seed differs from another '
-                               'seed\'s recorded answer')
